@@ -631,6 +631,14 @@ static void fault_site(char *out, size_t n)
 		if (strstr(file[i], "/libjwt/") && !strstr(file[i], "/libjwt/jwt-memory.c")) {
 			/* the function it called: the frame just below, unless that is the allocator itself */
 			const char *callee = i > 0 && !strstr(file[i - 1], "/libjwt/jwt-memory.c") ? fn[i - 1] : "jwt_malloc";
+			/* five jansson entry points misbehave by themselves when their own allocation fails (KNOWN_FINDINGS.txt): what fails there is
+			 * identified by the jansson function, whatever the libjwt function around the call is called this week */
+			static const char *own[] = { "json_dumps", "json_loadb", "json_load_file", "json_loadf", "json_object_update_missing" };
+			for (unsigned k = 0; k < sizeof own / sizeof *own; k++)
+				if (!strcmp(callee, own[k])) {
+					snprintf(out, n, "jansson:%s", callee);
+					return;
+				}
 			snprintf(out, n, "%s>%s", fn[i], callee);
 			return;
 		}
